@@ -42,6 +42,11 @@ Next == /\ Len(pay) < MaxLen
         /\ \E c \in Alphabet : pay' = Append(pay, c)
         /\ UNCHANGED <<mt, enc, kind>>
 Spec == Init /\ [][Next]_vars
+\* random walks (TLC -simulate): one seeded successor per step instead of one per alphabet symbol
+NextSim == /\ Len(pay) < MaxLen
+           /\ pay' = Append(pay, RandomElement(Alphabet))
+           /\ UNCHANGED <<mt, enc, kind>>
+SpecSim == Init /\ [][NextSim]_vars
 
 \* ------------------------------------------------------------------ design model
 \* abstract sub-minifiers
